@@ -121,7 +121,27 @@ def check(case, ctx):
     ctx.nt(multi and (bool(case["kinds"]) or max(per_block.values(), default=0) >= 2))
 
 
+def check_large(case, ctx):
+    e, n, labels, region, spacing = blocks.big_cloud(case)
+    kw = dict(spacing=spacing) if case["by"] == "spacing" else dict(shape=(case["nb_n"], case["nb_e"]))
+    block_coords, got = vd.block_split((e, n), region=region, **kw)
+    got = np.asarray(got)
+    ctx.check(got.shape == labels.shape, "labels must have one entry per point")
+    if not np.array_equal(got, labels):
+        k = int(np.argmax(got != labels))
+        raise Violation("point %d of %d (%r, %r) got label %d, floor division gives %d (region %r, %r)" % (k, e.size, float(e[k]), float(n[k]), int(got[k]), int(labels[k]), region, kw))
+    be, bn = np.asarray(block_coords[0]), np.asarray(block_coords[1])
+    ce = region[0] + (np.arange(case["nb_e"]) + 0.5) * case["dx"]
+    cn = region[2] + (np.arange(case["nb_n"]) + 0.5) * case["dy"]
+    ee, nn = np.meshgrid(ce, cn)
+    ctx.check(be.shape == (case["nb_n"] * case["nb_e"],) and np.array_equal(be, ee.ravel()) and np.array_equal(bn, nn.ravel()), "block centres are not the row-major pixel-registered grid")
+    ctx.label("n%d" % e.size, case["by"])
+    ctx.nt(case["nb_n"] * case["nb_e"] >= 4)
+
+
 SUBCHECKS = [
     Sub("block_split", check, strategy=cases(), quick=1500, thorough=5000,
         doc="labels and block centres vs the exact rational model for interior, edge, corner, near-edge and outside points"),
+    Sub("large", check_large, strategy=blocks.big_cases, quick=10, thorough=60,
+        doc="20 000 - 120 000 points on a dyadic sub-lattice of up to 40 x 40 blocks: labels equal floor division (vectorised oracle)"),
 ]
